@@ -1,9 +1,11 @@
-"""Unit runner: verify contracts / lemmas / spec functions, discharge obligations."""
-import sys, time, glob, os, json, traceback
+"""Unit runner: verify contracts / lemmas / spec functions in parallel, discharge obligations."""
+import sys, time, glob, os, json, traceback, itertools, multiprocessing
 import z3
 from . import front, speclang
 from .values import Unsupported
 from .verify import Engine, solve
+
+_G = {}
 
 
 def load(repo_root='/repo', spec_dir=None):
@@ -22,21 +24,41 @@ def list_units(specs):
     units = []
     for f in specs.funcs.values():
         if f.recursive:
-            units.append(('spec', f.name, None))
+            units.append(('spec', f.name, None, None))
     for l in specs.lemmas.values():
-        units.append(('lemma', l.name, None))
+        units.append(('lemma', l.name, None, None))
     for target, cs in specs.contracts.items():
         for c in cs:
-            if c.classes:
-                for cls in c.classes:
-                    units.append(('contract', c.key, cls))
-            else:
-                units.append(('contract', c.key, None))
+            combos = [None]
+            if 'split' in c.options:
+                ptypes = dict(c.params)
+                doms = []
+                for n in c.options['split']:
+                    t = ptypes[n]
+                    doms.append([(n, x) for x in ((0, 1) if t == 'bool' else (('v31', 'v311') if t == 'Ver' else (0, 1, 2)))])
+                combos = [tuple(x) for x in itertools.product(*doms)]
+            for cls in (c.classes or [None]):
+                for combo in combos:
+                    units.append(('contract', c.key, cls, combo))
     return units
 
 
+def unit_label(u):
+    return u[1] + ('@' + u[2] if u[2] else '') + (('[%s]' % ','.join('%s=%s' % kv for kv in u[3])) if u[3] else '')
+
+
+def unit_props(specs, u):
+    kind, name, cls, combo = u
+    if kind == 'lemma':
+        return specs.lemmas[name].props
+    if kind == 'contract':
+        target, cname = name.split('#')
+        return [c for c in specs.contracts[target] if c.name == cname][0].props
+    return []
+
+
 def run_unit(repo, specs, unit, timeout_ms=10000):
-    kind, name, cls = unit
+    kind, name, cls, combo = unit
     eng = Engine(repo, specs)
     t0 = time.time()
     status = 'ok'
@@ -49,7 +71,7 @@ def run_unit(repo, specs, unit, timeout_ms=10000):
         else:
             target, cname = name.split('#')
             c = [c for c in specs.contracts[target] if c.name == cname][0]
-            eng.verify_contract(c, cls)
+            eng.verify_contract(c, cls, combo)
     except Unsupported as e:
         status = 'unsupported'
         detail = str(e)
@@ -65,13 +87,83 @@ def run_unit(repo, specs, unit, timeout_ms=10000):
     return eng, status, detail, results, gen_s
 
 
+def model_inputs(o):
+    ins = {}
+    if o.model is None:
+        return ins
+    for n, v in o.inputs.items():
+        if hasattr(v, 't') and v.t is not None:
+            try:
+                ins[n] = str(o.model.eval(v.t, model_completion=True))
+            except Exception:
+                pass
+    return ins
+
+
+def _work(args):
+    unit, timeout_ms = args
+    repo, specs = _G['repo'], _G['specs']
+    eng, status, detail, results, gen_s = run_unit(repo, specs, unit, timeout_ms)
+    obls = []
+    for o in results:
+        obls.append({'name': o.name, 'kind': o.kind, 'result': o.result, 'backend': o.backend, 'solver_s': round(o.time, 3),
+                     'trace': o.trace[-10:], 'model': model_inputs(o), 'detail': o.detail,
+                     'goal': str(o.goal)[:400] if o.result != 'proved' else ''})
+    return {'unit': unit, 'label': unit_label(unit), 'status': status, 'detail': detail, 'gen_s': round(gen_s, 2),
+            'obligations': obls, 'covers': getattr(eng, 'covers', None), 'inlined': sorted(eng.inlined),
+            'used_contracts': sorted(eng.used_contracts), 'fn_hash': getattr(eng, 'fn_hash', None),
+            'notes': eng.notes}
+
+
+def run_units(repo, specs, units, jobs=16, timeout_ms=10000):
+    _G['repo'], _G['specs'] = repo, specs
+    if jobs <= 1 or len(units) <= 1:
+        return [_work((u, timeout_ms)) for u in units]
+    ctx = multiprocessing.get_context('fork')
+    with ctx.Pool(min(jobs, len(units))) as pool:
+        return pool.map(_work, [(u, timeout_ms) for u in units], chunksize=1)
+
+
+def summarize(res, verbose=False):
+    bad = 0
+    for r in res:
+        obls = r['obligations']
+        canaries = [o for o in obls if o['kind'] == 'canary']
+        real = [o for o in obls if o['kind'] != 'canary']
+        status = r['status']
+        if canaries and all(o['result'] == 'proved' for o in canaries):
+            status = 'VACUOUS'
+        np_ = sum(1 for o in real if o['result'] == 'proved')
+        print('%-70s %s gen=%.1fs obl=%d proved=%d covers=%s' % (r['label'], status, r['gen_s'], len(real), np_, r['covers']))
+        if status != 'ok':
+            print('    ', r['detail'])
+            bad += 1
+        for o in real:
+            if o['result'] != 'proved' or verbose:
+                print('    %-8s %-10s %5.2fs %s' % (o['result'], o['backend'], o['solver_s'], o['name']))
+                if o['result'] != 'proved':
+                    bad += 1
+                    print('        trace:', ' ; '.join(o['trace'][-8:]))
+                    if o['model']:
+                        print('        model:', {k: v[:80] for k, v in o['model'].items()})
+                    if o['detail']:
+                        print('        ', o['detail'][:300])
+    return bad
+
+
 def main(argv):
     repo_root = '/repo'
     pats = []
     verbose = False
+    jobs = 16
+    tmo = 10000
     for a in argv:
         if a.startswith('--repo='):
             repo_root = a[7:]
+        elif a.startswith('-j'):
+            jobs = int(a[2:])
+        elif a.startswith('--timeout='):
+            tmo = int(a[10:])
         elif a == '-v':
             verbose = True
         else:
@@ -79,37 +171,11 @@ def main(argv):
     repo, specs = load(repo_root)
     units = list_units(specs)
     if pats:
-        units = [u for u in units if any(p in u[1] for p in pats)]
-    bad = 0
-    for u in units:
-        eng, status, detail, results, gen_s = run_unit(repo, specs, u)
-        canaries = [o for o in results if o.kind == 'canary']
-        results = [o for o in results if o.kind != 'canary']
-        vac = canaries and all(o.result == 'proved' for o in canaries)
-        if vac:
-            status = 'VACUOUS'
-        np = sum(1 for o in results if o.result == 'proved')
-        print('%-9s %-60s %s gen=%.1fs obl=%d proved=%d covers=%s' % (u[0], u[1] + ('@' + u[2] if u[2] else ''), status, gen_s, len(results), np, getattr(eng, 'covers', '?')))
-        if status != 'ok':
-            print('    ', detail)
-            bad += 1
-        for o in results:
-            if o.result != 'proved' or verbose:
-                print('    %-8s %-7s %5.2fs %s' % (o.result, o.backend, o.time, o.name))
-                if o.result != 'proved':
-                    bad += 1
-                    print('        trace:', ' ; '.join(o.trace[-8:]))
-                    if o.model is not None:
-                        ins = {}
-                        for n, v in o.inputs.items():
-                            if hasattr(v, 't') and v.t is not None:
-                                try:
-                                    ins[n] = str(o.model.eval(v.t, model_completion=True))[:80]
-                                except Exception:
-                                    pass
-                        print('        model:', ins)
-                    if o.detail:
-                        print('        ', o.detail)
+        units = [u for u in units if any(p in unit_label(u) for p in pats)]
+    t0 = time.time()
+    res = run_units(repo, specs, units, jobs, tmo)
+    bad = summarize(res, verbose)
+    print('units=%d wall=%.1fs' % (len(units), time.time() - t0))
     return 1 if bad else 0
 
 
